@@ -654,11 +654,14 @@ Fixpoint descs_of_from (i : N) (l : list rawdesc) : list desc :=
   end.
 Definition descs_of (l : list rawdesc) : list desc := descs_of_from 0 l.
 
-(* observed task: descriptor index, dynamic ports (channel name, port) in merged channel order,
-   control port handed over, requested ports, cpus, mem (thousandths), executor reused *)
+(* observed task: descriptor index, every TCP endpoint of the task's bind map (channel name, port)
+   - channels of the descriptor's own merged list first, in that order, any other channel after
+   them -, the channels bound to an IPC endpoint (same order), control port handed over, requested
+   ports, cpus, mem (thousandths), executor reused *)
 Record otask := mkOT {
   ot_did : N;
   ot_dyn : list (N * N);
+  ot_ipc : list N;
   ot_handed : option N;
   ot_req : ranges;
   ot_cpu : N;
@@ -700,8 +703,14 @@ Fixpoint perms {A} (l : list A) : list (list A) :=
   end.
 
 (* ---- projection of a model outcome to the observable ---- *)
+(* the channel list a task is built for is a function of its DESCRIPTOR: the inbound channels
+   bound on the enclosing roles, then those of the class (GetWantsForDescriptor) *)
+Definition desc_chans (d : desc) : list chan :=
+  match d_class d with Some k => merge_inbound (d_rbind d) (k_bind k) | None => [] end.
 Definition otask_of (t : task) : otask :=
-  mkOT (d_id (t_desc t)) (t_dyn t) (t_handed t) (t_req t) (t_cpu t) (t_mem t) (t_reuse t).
+  mkOT (d_id (t_desc t)) (t_dyn t)
+       (map ch_name (filter (fun c => negb (ch_tcp c)) (desc_chans (t_desc t))))
+       (t_handed t) (t_req t) (t_cpu t) (t_mem t) (t_reuse t).
 Fixpoint find_accept (oid : N) (acc : list (offer * list task)) : option (list task) :=
   match acc with
   | [] => None
@@ -718,6 +727,7 @@ Definition obs_of (offers : list offer) (out : outcome) : round_obs :=
 Definition pairN_eqb := pair_eqb N.eqb N.eqb.
 Definition otask_eqb (a b : otask) : bool :=
   N.eqb (ot_did a) (ot_did b) && list_eqb pairN_eqb (ot_dyn a) (ot_dyn b) &&
+  list_eqb N.eqb (ot_ipc a) (ot_ipc b) &&
   option_eqb N.eqb (ot_handed a) (ot_handed b) && ranges_eqb (ot_req a) (ot_req b) &&
   N.eqb (ot_cpu a) (ot_cpu b) && N.eqb (ot_mem a) (ot_mem b) && Bool.eqb (ot_reuse a) (ot_reuse b).
 Definition robs_eqb (a b : round_obs) : bool :=
@@ -858,13 +868,19 @@ Definition mon_task (o : offer) (rds : list rawdesc) (t : otask) : N :=
       let c7 := if ranges_subset (ot_req t) offered && ranges_subset (map span1 dynp) offered &&
                    match ot_handed t with Some p => inr p offered | None => true end
                 then 0 else 7 in
+      (* one dynamic port per inbound TCP channel, one IPC endpoint per inbound IPC channel of THIS
+         task's channel list as the workflow and the class spell it - no channel of another task *)
+      let c8 := if list_eqb N.eqb (map fst (ot_dyn t)) (map ch_name (filter ch_tcp (spec_chans rd rk))) &&
+                   list_eqb N.eqb (ot_ipc t)
+                            (map ch_name (filter (fun c => negb (ch_tcp c)) (spec_chans rd rk)))
+                then 0 else 8 in
       let c9 := if N.eqb (Nlen dynp) (n_tcp (spec_chans rd rk)) &&
                    Bool.eqb (match ot_handed t with Some _ => true | None => false end)
                             (rk_controllable rk) &&
                    forallb (fun p => inr p (ot_req t)) dynp &&
                    match ot_handed t with Some p => inr p (ot_req t) | None => true end
                 then 0 else 9 in
-      first_code [c1; c6; c2; c7; c9]
+      first_code [c1; c6; c2; c7; c8; c9]
     end
   end.
 
